@@ -181,6 +181,7 @@ func runC13(c *eng.Ctx, thorough bool) {
 	c13Cache(c)
 	cacheLockOwner(c, "C13.5")
 	cacheLruUnderKeyLock(c, "C13.5") // shared with C08.5 (props/c08g2.go)
+	raftListRecordsKept(c, "C13.2")  // shared with C08.2 (props/c08g2.go): listings inside a raft transaction
 	c13Seek(c)
 	c13SlicePagination(c)
 	c13Views(c)
@@ -1242,11 +1243,11 @@ func cacheLockOwner(c *eng.Ctx, clause string) {
 			continue
 		}
 		for _, mu := range muts {
-			owner := strings.TrimSuffix(eng.ExprDeep(mu.Common().Args[0]), ".lru")
+			owner := strings.TrimSuffix(c08g2Ident(mu.Common().Args[0]), ".lru") // identity through local aliases / captured variables (props/c08g2.go)
 			ok := false
 			var tables []string
 			for _, lk := range locks {
-				t := strings.TrimSuffix(eng.ExprDeep(lk.Common().Args[0]), ".locks")
+				t := strings.TrimSuffix(c08g2Ident(lk.Common().Args[0]), ".locks")
 				tables = append(tables, t)
 				if t == owner {
 					ok = true
